@@ -46,8 +46,9 @@ def afterFirstErr : List String → List String
 input, in order (a prefix of the valid frames); the first error is final; a body that just ends
 after a refused frame, or inside a frame, yields every valid message and then an error. -/
 def handle (case obs : List String) : String × String :=
-  match model case, parseDecCase case with
-  | some m, some c =>
+  match parseDecCase case with
+  | some c =>
+    let m := runDec c
     let msgs := obsMsgs obs
     let vp := validPrefix c
     (m, verdict [("no-panic-no-hang", !obs.any isBad),
@@ -60,5 +61,5 @@ def handle (case obs : List String) : String × String :=
                     match demanded c with
                     | some (_, code) => ((obs.find? (fun t => tokKind t = 'e')).bind codeOfTok) == some code
                     | none => true)])
-  | _, _ => bad
+  | none => bad
 end DriverC07
